@@ -141,7 +141,12 @@ fn main() {
         std::process::exit(demo(&a[2]));
     }
     if a.len() >= 3 && a[1] == "bounded" {
-        match bounded::run(&a[2]) {
+        let prop = a[2].clone();
+        let res = std::panic::catch_unwind(move || bounded::run(&prop));
+        let res = match res { Ok(r) => r, Err(e) => {
+            let msg = e.downcast_ref::<String>().cloned().or_else(|| e.downcast_ref::<&str>().map(|s| s.to_string())).unwrap_or_default();
+            Some(bounded::Outcome { cases: 1, distinct: 2, fail: Some(format!("the real code PANICKED on an input of the family (it returns on the unchanged tree): {msg}")) }) } };
+        match res {
             None => { println!("BOUNDED-NONE property={}", a[2]); std::process::exit(4); }
             Some(o) => {
                 println!("BOUNDED property={} cases={} distinct={} {}", a[2], o.cases, o.distinct, if o.fail.is_some() { "FAIL" } else { "pass" });
